@@ -180,10 +180,16 @@ Definition ostream_prog (x : ostream) : prog :=
 Inductive entry := EFree | ECached | EParse (o : fobj).
 
 (* read.go dereferenceObjectsRaw/Sorted first loop + dereferenceAndLoad: relaxed mode swallows
-   the error of ParseObjectWithContext (o == nil -> return nil); loadStreamDict errors propagate *)
-Definition entry_prog (relaxed : bool) (e : entry) : prog :=
+   the error of ParseObjectWithContext (o == nil -> return nil); loadStreamDict errors propagate;
+   repoff: ctx.Read.RepairOffset > 0 ("xref" found on the second line): relaxed mode tries the
+   object a second time at the shifted offset before skipping it (the shifted read is modelled
+   with the same poll counts). *)
+Definition entry_prog (relaxed repoff : bool) (e : entry) : prog :=
   match e with
-  | EParse o => Seq Poll (if relaxed then Try (parse_obj o) Skip (pollsN (op o))
+  | EParse o => Seq Poll (if relaxed
+                          then Try (parse_obj o)
+                                   (if repoff then Try (parse_obj o) Skip (pollsN (op o)) else Skip)
+                                   (pollsN (op o))
                           else parse_and_load o)
   | _ => Poll
   end.
@@ -191,11 +197,12 @@ Definition entry_prog (relaxed : bool) (e : entry) : prog :=
 Definition entry_poll2 (e : entry) : prog :=
   match e with EFree => Skip | _ => Poll end.
 
-Definition deref (relaxed : bool) (es : list entry) : prog :=
-  Seq (seqs (map (entry_prog relaxed) es)) (seqs (map entry_poll2 es)).
+Definition deref (relaxed repoff : bool) (es : list entry) : prog :=
+  Seq (seqs (map (entry_prog relaxed repoff) es)) (seqs (map entry_poll2 es)).
 
 Record shape := mkshape {
   s_relaxed : bool;
+  s_repoff : bool;               (* ctx.Read.RepairOffset > 0 *)
   s_prefail : bool;              (* NewContext / offsetLastXRefSection / headerVersion reject the input *)
   s_sections : list section;
   s_file : list fitem;           (* what bypassXrefSection would meet *)
@@ -210,7 +217,7 @@ Definition read_prog (s : shape) : prog :=
   (Seq (chain (s_relaxed s) (s_file s) (s_sections s))
   (Seq (pollsN (s_enc s))
   (Seq (seqs (map ostream_prog (s_ostreams s)))
-       (deref (s_relaxed s) (s_entries s))))).
+       (deref (s_relaxed s) (s_repoff s) (s_entries s))))).
 
 Definition st0 := mkst 0 0.
 Definition read (poll : N -> option N) (s : shape) : outcome * state := run poll (read_prog s) st0.
